@@ -99,6 +99,9 @@ func Load(cfg *Config) (*Program, error) {
 	return p, nil
 }
 
+// SetSolver switches the solver back end for subsequent explorations.
+func (p *Program) SetSolver(kind string) { p.cfg.Solver = kind }
+
 // RegisterOverride redirects calls of the function whose String() is target
 // to the harness function (pkgPath, name).
 func (p *Program) RegisterOverride(target, pkgPath, name string) error {
